@@ -25,7 +25,8 @@ TRUSTED = ["Coq 8.16.1 kernel + vm_compute", "Rust executor /verif/harness (Rat 
            "hand-written Gallina model coq/Model/{Matrix,MatOps,MatNorms}.v tied to src/matrix/*.rs by differential execution (Rat vs Qc exact; f64/Complex vs primitive floats)"]
 ASSUMPTIONS = ["Rust semantics of Vec/usize as modelled (checked indexing, debug overflow checks)", "the sampled cases are where model and code were compared; the theorems are about the model",
                "norms_real only: the four standard-library axioms of the classical real numbers",
-               "norm_frob / norm_p at p = 2 of the float model use x*x for f64::powf(x, 2.0) and sqrt for powf(s, 0.5) (libm's pow is not specified to be correctly rounded: compared by tolerance)"]
+               "norm_frob / norm_p at p = 2 of the float model use x*x for f64::powf(x, 2.0) and sqrt for powf(s, 0.5) (libm's pow is not specified to be correctly rounded: compared by tolerance)",
+               "model evaluation of dimensions up to 20 needs the default 8 MB stack (ulimit -s 8192): the big-shapes family stops at 20 because a 33 x 33 rational history overflows coqc's stack under vm_compute; with a smaller stack limit the model side of these cases fails (a machinery error, not a verdict)"]
 UNPROVED = ["norms_real's p-norm clause is stated with Coq's Rpower (Rpower 0 p = 1) and is wrong on matrices with zero entries (norm_p_Rpower_wrong_at_zero makes that concrete); the correct statement is norm_p_real (power function pw with 0^p = 0), with norm_p_real_1 / _2 (entrywise 1-norm, Frobenius), bounds, the norm axioms, Minkowski for p >= 1 (norm_p_triangle), submultiplicativity of norm_1 / norm_inf / norm_frob (matnorm_submult; refuted for norm_max), consistency with the vector norms; NOT proved: submultiplicativity of norm_p for 1 <= p <= 2 (Hoelder); at binary64 a NaN entry is ignored by f64::max (norm_1 [[NaN]] = 0: matnorm_float_nan_ignored pins what the code does; outside the property's quantifier)",
             "round two: matvec_backward_error / matmul_backward_error (fl(Ax) = (A+dA)x, |dA| <= gamma_n |A|) in the standard model and at binary64 via Flocq; rounding bounds of norm_1 / norm_inf / norm_max / norm_frob in the standard model and at binary64 (mnorm_*_rounding, mnorm_*_float); libm's powf inside norm_p at general p remains tie + search (the norm theorems are over exact order/real arithmetic with powf as a parameter)",
             "history refinement (run_refines) covers the 18 checked editing operations; the raw (i,j) writes m[(i,j)]= / swap_elem (unchecked addressing, outside the claim) and /= scalar (own theorem mdiv_assign_scalar_spec) are tied and searched only",
@@ -398,7 +399,8 @@ def gen_special(rng, tier):
     # (b') dimensions above 8 (a blocked / strided loop shows its remainder handling from the second block on): products, transposes,
     # row / column access, matrix * vector on shapes with a dimension in 9..20
     g = rng.fork("big-shapes")
-    dims = [9, 12, 16, 17, 20]      # (a 33 x 33 rational history overflows coqc's stack under vm_compute: the model side sets the limit)
+    dims = [9, 12, 16, 17, 20]      # (a 33 x 33 rational history overflows coqc's stack under vm_compute: the model side sets the limit;
+                                    #  the margin depends on `ulimit -s`, 8 MB here -- stated in ASSUMPTIONS)
     for t in range(6 if quick else 30):
         r, k, c = g.choice(dims), g.choice(dims + [1, 2]), g.choice(dims + [1, 3])
         cases.append(mk('rat', rmat(g, 'rat', r, k), [("mul", rmat(g, 'rat', k, c))], "big-shapes"))
@@ -527,6 +529,12 @@ def case_from_json(j):
     else:
         m0 = tuple(m0); ops = [tuple(o) for o in ops]
     return mk(elt, m0, ops, "corpus")
+
+def extra_coverage():
+    # the float histories the list-of-rows reference judged, and those it left to the model tie alone because the largest
+    # magnitude of the history exceeds 1e150 (matlib.streams_close_float)
+    return {"float_histories_judged_by_reference": FLOAT_JUDGED["judged"],
+            "float_histories_not_judged_scale_above_1e150": FLOAT_JUDGED["not_judged_scale_above_1e150"]}
 
 def oracle(case, items):
     if case.meta.get("kind") in ("norms", "norm_p"):
